@@ -1,3 +1,4 @@
+import Pds.Proofs.KernelTie.Merge
 import Pds.Proofs.KernelTie.HashIter
 import Pds.Proofs.KernelTie.CmsOps
 /-!
@@ -26,5 +27,13 @@ theorem cms_add_n_translated (hash : List Nat → Nat) (s : Cms.St) (x n : Nat) 
   unfold Cms.addN
   rw [hc]
   rfl
+
+/-- `CountMinSketch::merge` as translated (both `assert_eq!`, cells zipped with `checked_add(..).unwrap()`) is the
+model's `merge` -/
+theorem cms_merge_translated (s o : Cms.St) :
+    cms_merge s.w s.d s.cmax s.table.toList o.w o.d o.table.toList =
+      match Cms.merge s o with
+      | none => Flow.panic
+      | some s' => Flow.cont s'.table.toList := cms_merge_eq s o
 
 end Pds.Tie.C02
